@@ -252,6 +252,10 @@ class StreamReader:
         if self._eof:
             return
 
+        # Nobody would wake us: set_exception() has already run.
+        if self._exception is not None:
+            raise self._exception
+
         assert self._eof_waiter is None
         self._eof_waiter = self._loop.create_future()
         try:
